@@ -262,6 +262,63 @@ def validateAll (E : Env) : List Written → Except Exc Unit
 def checkForErrors (E : Env) (l : MemLogger) : Except Exc Unit :=
   if l.tracebacks ≠ [] then .error .unflushedTracebacks else validateAll E l.messages
 
+/-! ### A logger's history: writes, `validate()`, `reset()`, `check_for_errors`
+
+`validate()` works *in place*: a stored message that gets as far as the serialization step is replaced
+by its serialized contents (`write` validates a copy and leaves the stored message alone). -/
+
+/-- `_validate_message` together with what it leaves in the dictionary it was given -/
+def memValidateS (E : Env) (ser : Option Serializer) (m : Msg) : Except Exc Unit × Msg :=
+  match (match ser with | some s => validate E s m | Option.none => .ok ()) with
+  | .error e => (.error e, m)
+  | .ok _ =>
+    match checkKeys m with
+    | .error e => (.error e, m)
+    | .ok _ =>
+      match (match ser with | some s => serializeAll E s.fields m | Option.none => .ok m) with
+      | .error e => (.error e, m)     -- (a serializer failing on an input it has just accepted: not reachable for deterministic callbacks)
+      | .ok m' => (if jsonEncodable m' then .ok () else .error .typeError, m')
+
+/-- `MemoryLogger.validate` with its effect on the stored messages; stops at the first failure -/
+def validateAllS (E : Env) : List Written → Except Exc Unit × List Written
+  | [] => (.ok (), [])
+  | w :: ws =>
+    let r := memValidateS E w.ser w.msg
+    match r.1 with
+    | .error e => (.error e, { w with msg := r.2 } :: ws)
+    | .ok _ =>
+      let rs := validateAllS E ws
+      (rs.1, { w with msg := r.2 } :: rs.2)
+
+/-- `MemoryLogger.reset` -/
+def MemLogger.reset (_ : MemLogger) : MemLogger := {}
+
+inductive Op where
+  | write (w : Written)
+  | validate
+  | reset
+  | check                        -- `check_for_errors(logger)`
+
+/-- one operation: the logger afterwards and, for `validate` / `check`, what the call did -/
+def MemLogger.step (E : Env) (l : MemLogger) : Op → MemLogger × Option (Except Exc Unit)
+  | .write w => (l.write E w, Option.none)
+  | .reset => (l.reset, Option.none)
+  | .validate =>
+    let r := validateAllS E l.messages
+    ({ l with messages := r.2 }, some r.1)
+  | .check =>
+    if l.tracebacks ≠ [] then (l, some (.error .unflushedTracebacks))
+    else
+      let r := validateAllS E l.messages
+      ({ l with messages := r.2 }, some r.1)
+
+def MemLogger.run (E : Env) : MemLogger → List Op → MemLogger × List (Except Exc Unit)
+  | l, [] => (l, [])
+  | l, op :: ops =>
+    let r := l.step E op
+    let rs := MemLogger.run E r.1 ops
+    (rs.1, (match r.2 with | some x => [x] | Option.none => []) ++ rs.2)
+
 /-! ## The default logger under `capture_logging`
 
 `swap_logger(logger)` is `prev = _DEFAULT_LOGGER; _DEFAULT_LOGGER = logger; return prev`; the wrapper
@@ -279,9 +336,11 @@ inductive Cleanup where
 deriving DecidableEq, Repr
 
 /-- A test method: its body ends with an outcome; it may be wrapped by `@capture_logging` (any number
-of times); the body may first run complete inner test cases (which have their own cleanup stacks). -/
+of times); the body may first run complete inner test cases (which have their own cleanup stacks), and
+it may replace the default logger on its own account. -/
 inductive Test where
   | body (o : Outcome)
+  | swaps (rest : Test)          -- the body calls `swap_logger(MemoryLogger())` itself and never puts the old one back; then goes on as `rest`
   | captured (t : Test)
   | inner (t : Test) (rest : Test)
 deriving Repr, Inhabited
@@ -302,6 +361,7 @@ mutual
 /-- run the (possibly wrapped) test method inside a test case whose state is `s` -/
 def exec : Test → St → St
   | .body _, s => { s with seen := s.seen ++ [s.default] }   -- whatever the outcome, the exception just propagates
+  | .swaps rest, s => exec rest { s with default := s.fresh, fresh := s.fresh + 1 }
   | .captured t, s =>
     -- validate_logging: logger = MemoryLogger(); addCleanup(check_for_errors, logger)
     -- capture_logging:  previous = swap_logger(logger); addCleanup(cleanup)
